@@ -278,7 +278,8 @@ func readAll(l jet.Loader, p string) (string, error) {
 }
 
 // buildLayer materialises a layer; cleanup removes temp dirs.
-func buildLayer(l c19Layer, tmpRoot string, idx int) (jet.Loader, map[string]string, error) {
+// chdir: set to the directory the process has to work in for an http.Dir("") layer (at most one per case).
+func buildLayer(l c19Layer, tmpRoot string, idx int, chdir *string) (jet.Loader, map[string]string, error) {
 	switch l.Kind {
 	case "inmem":
 		m := jet.NewInMemLoader()
@@ -330,7 +331,16 @@ func buildLayer(l c19Layer, tmpRoot string, idx int) (jet.Loader, map[string]str
 		spelt := []string{root, root + "/", filepath.Dir(root) + "/./" + filepath.Base(root), root + "/sub/..", root + "//"}[l.Root%5]
 		return jet.NewOSFileSystemLoader(spelt), model, nil
 	}
-	hl, err := httpfs.NewLoader(http.Dir(root))
+	// how the http.Dir is spelt; the empty Dir means the working directory
+	dir := []string{root, root + "/", root + "/sub/..", ""}[l.Root%4]
+	if dir == "" {
+		if *chdir != "" {
+			dir = root
+		} else {
+			*chdir = root
+		}
+	}
+	hl, err := httpfs.NewLoader(http.Dir(dir))
 	return hl, model, err
 }
 
@@ -405,14 +415,25 @@ func judgeC19(c c19Case) (v core.Verdict) {
 	defer os.RemoveAll(tmp)
 	var loaders []jet.Loader
 	var models []map[string]string
+	chdir := ""
 	for i, ly := range c.Layers {
-		l, m, err := buildLayer(ly, tmp, i)
+		l, m, err := buildLayer(ly, tmp, i, &chdir)
 		if err != nil {
 			panic(err)
+		}
+		if chdir != "" && ly.Kind == "http" && ly.Root%4 == 3 {
+			v.Label("http.Dir-empty-root")
 		}
 		loaders = append(loaders, l)
 		models = append(models, m)
 		v.Label("layer:" + ly.Kind)
+	}
+	if chdir != "" {
+		old, err := os.Getwd()
+		if err != nil || os.Chdir(chdir) != nil {
+			panic("chdir")
+		}
+		defer os.Chdir(old)
 	}
 	isDirOrLater := false
 	check := func(name string, l jet.Loader, active []map[string]string) bool {
